@@ -288,6 +288,11 @@ pub fn gen_wsdl_set_opt(ch: &mut Chooser, tag: u64, wild: bool) -> (InputSet, Ge
             }
             if let Some(b) = bad {
                 mutations.push(serde_json::json!({"name": format!("{fname}{f} violates its facet"), "position": format!("body/depth{depth}{occ_label}"), "find": one, "replace": format!("<{tag}>{b}</{tag}>")}));
+                if occ.contains("unbounded") {
+                    // a large request: 80 more valid elements and the violating one at the very end
+                    let many = one.repeat(80);
+                    mutations.push(serde_json::json!({"name": format!("{fname}{f}: 80 more elements, the last one violating"), "position": format!("body/depth{depth}/vec[81]/large-request"), "find": one, "replace": format!("{one}{many}<{tag}>{b}</{tag}>")}));
+                }
             }
         }
         let _ = writeln!(w, "          </xs:sequence>");
@@ -339,7 +344,7 @@ pub fn gen_wsdl_set_opt(ch: &mut Chooser, tag: u64, wild: bool) -> (InputSet, Ge
         let hdr = if n_headers > 0 { format!("<soapenv:Header>{header}</soapenv:Header>") } else { String::new() };
         let request = format!("<?xml version=\"1.0\" encoding=\"UTF-8\"?>{env_open}{hdr}<soapenv:Body><tns:{name}Request>{req_body}</tns:{name}Request></soapenv:Body></soapenv:Envelope>");
         let response = format!("<?xml version=\"1.0\" encoding=\"UTF-8\"?>{env_open}<soapenv:Body><tns:{name}Response><tns:result>done {o}</tns:result><tns:count>{}</tns:count></tns:{name}Response></soapenv:Body></soapenv:Envelope>", o + 3);
-        mutations.truncate(8);
+        mutations.truncate(10);
         instances.insert(name.clone(), serde_json::json!({"request": request, "response": response, "mutations": mutations}));
         ops.push(GenOp { name, has_header: n_headers > 0, parts_attr, n_parts: 1 + n_headers });
     }
